@@ -3889,3 +3889,85 @@ def _r_strict_tells_serialisations_apart(ctx, rule):
        'are compared deeply (strict_equal), not with the shallow predicate', 2)
 def r02_23(ctx, rule):
     _r_strict_tells_serialisations_apart(ctx, rule)
+
+
+@extra('C14', 'R14.19', 'the differ and the printer agree on what a category is: every path the printer hides under an option is ignored by the differ under the same option '
+       '(evaluated for the root-level and cell-level fields of the notebook schema and the paths of the differ\'s category table)', 8)
+def r14_19(ctx, rule):
+    from . import c14
+    from ..schema import NbSchema
+    repo = ctx.repo
+    fn, params, table = c14.ignore_table(ctx)
+    sch = NbSchema(5)
+    PRINTER_OPT = {'sources': 'sources', 'outputs': 'outputs', 'attachments': 'attachments', 'metadata': 'metadata', 'identifier': 'id', 'id': 'id', 'details': 'details'}
+    cand = set(table)
+    for top in ('/nbformat', '/nbformat_minor', '/metadata', '/cells'):
+        cand.add(top)
+    for alt in sch.at('/cells/*'):
+        if isinstance(alt, dict):
+            for k in alt.get('properties', {}):
+                cand.add('/cells/*/' + k)
+    for alt in sch.at('/cells/*/outputs/*'):
+        if isinstance(alt, dict):
+            for k in alt.get('properties', {}):
+                cand.add('/cells/*/outputs/*/' + k)
+
+    def differ_opts(path):
+        """options under which the differ hides a change at this path: the path itself or a prefix ignored whole, or its last key filtered at the parent"""
+        out = set()
+        for p, (cat, kind, keys, node) in table.items():
+            if cat is None:
+                continue
+            if kind == 'whole' and (path == p or path.startswith(p + '/')):
+                out.add(PRINTER_OPT.get(cat, cat))
+            if kind == 'keys' and '/' in path and path.rsplit('/', 1)[0] == p and path.rsplit('/', 1)[1] in keys:
+                out.add(PRINTER_OPT.get(cat, cat))
+        return out
+    n = 0
+    for path in sorted(cand):
+        if path in ('/cells', '/cells/*'):
+            continue
+        gates = ignore_gates_for(repo, path)
+        dopts = differ_opts(path)
+        n += 1
+        missing = gates - dopts
+        ok = not missing
+        ctx.inst(rule, 'nbdime.diffing.notebooks:set_notebook_diff_targets', '%s: printer hides under %s, differ ignores under %s' % (path, sorted(gates) or '-', sorted(dopts) or '-'), ok,
+                 'agree' if ok else
+                 'with %s switched off the printer hides %s but the differ still reports a change there: the diff is not empty although nothing of a shown category changed, '
+                 'and nbdiff prints its header lines and nothing else' % (sorted(missing), path), fn)
+    if n < 8:
+        raise AnalysisError('R14.19: fewer than 8 candidate paths')
+
+
+@extra('C14', 'R14.20', 'the output renderer consults the options its own path filter files the output\'s fields under: metadata for /cells/*/outputs/*/metadata, details for '
+       '/cells/*/outputs/*/execution_count -- an output rendered whole (inserted, deleted, nbshow) must not show what the same options hide inside a changed output', 2)
+def r14_20(ctx, rule):
+    from . import c14
+    repo = ctx.repo
+    fid = 'nbdime.prettyprint:pretty_print_output'
+    fn = repo.func(fid)
+    _f, _params, table = c14.ignore_table(ctx)
+    PRINTER_OPT = {'identifier': 'id'}
+    cfgp = next((a.arg for a in fn.args.args if a.arg == 'config'), 'config')
+    consulted = {x.attr for x in ast.walk(fn) if isinstance(x, ast.Attribute) and isinstance(x.value, ast.Name) and x.value.id == cfgp}
+    n = 0
+    for path, (cat, kind, keys, node) in sorted(table.items()):
+        fields = []
+        if kind == 'whole' and path.startswith('/cells/*/outputs/*/'):
+            fields = [path.rsplit('/', 1)[1]]
+        elif kind == 'keys' and path == '/cells/*/outputs/*':
+            fields = list(keys)
+        for field in fields:
+            opt = PRINTER_OPT.get(cat, cat)
+            n += 1
+            gates = ignore_gates_for(repo, '/cells/*/outputs/*/' + field)
+            ok1 = opt in gates
+            ctx.inst(rule, 'nbdime.prettyprint:PrettyPrintConfig.should_ignore_path', 'output field %r: differ category %s, path filter reads %s' % (field, opt, sorted(gates)), ok1,
+                     'same option' if ok1 else 'the differ files %r of an output under %s, the printer\'s path filter does not' % (field, opt), None)
+            ok2 = opt in consulted
+            ctx.inst(rule, fid, 'output field %r: differ category %s, renderer consults %s' % (field, opt, sorted(consulted) or '-'), ok2,
+                     'same option' if ok2 else
+                     'the renderer prints %r of an output without asking config.%s: nbshow --ignore-%s and inserted/deleted outputs in nbdiff still show it' % (field, opt, opt), fn)
+    if n == 0:
+        ctx.inst(rule, fid, 'the differ table files no output field under a category', True, 'nothing to agree on (R14.1 judges the table)', fn, nontrivial=False)
